@@ -161,7 +161,7 @@ def judge_value(ctx, case):
                 ctx.op('prop', 'ok' if got[0] == 'ok' else type(got[1]).__name__)
                 unit = {'hex': 4, 'oct': 3, 'bin': 1}[c]
                 if f:
-                    if got[0] != 'ok' or len(o) != unit * len(pv):
+                    if got[0] != 'ok' or len(o) != unit * len(K.tidy(pv, {'hex': '0x', 'oct': '0o', 'bin': '0b'}[c])):
                         ctx.mismatch(f'C15|prop|{c}|valid-digits|rejected-or-wrong-length', case, f'{pv!r:.30}: {got!r:.60} len {len(o)}')
                     else:
                         ctx.ok((c, 'prop', 'valid-digits'))
